@@ -14,6 +14,7 @@ inductive SeqOp where
   | setFrameRange (r : Bytes)
   | setFrameSet (r : Bytes)      -- SetFrameSet(NewFrameSet(r)), nil when r does not parse
   | normalize                    -- SetFrameSet(FrameSet().Normalize()) when a frame set is present
+  | invertSet                    -- SetFrameSet(FrameSet().Invert()) when a frame set is present
   | copy                         -- continue with the copy
   | split                        -- observe the parts, continue with the original
   deriving Repr
@@ -30,8 +31,17 @@ def Seq.apply (s : Seq) : SeqOp → Seq
   | .normalize => match s.frameSet with
       | some fs => s.setFrameSet (some fs.normalize)
       | none => s
+  | .invertSet => match s.frameSet with
+      | some fs => s.setFrameSet (some fs.invert)
+      | none => s
   | .copy => s.copy
   | .split => s
+
+/-- the two calls that install a frame set printed from blocks instead of parsed from text -/
+def SeqOp.derived : SeqOp → Bool
+  | .normalize => true
+  | .invertSet => true
+  | _ => false
 
 def Seq.run (s : Seq) (ops : List SeqOp) : Seq := ops.foldl Seq.apply s
 
